@@ -185,7 +185,19 @@ func Tiny(r *rand.Rand) KeySet {
 
 // Any picks a shape class at random; sizes scale with `size` (max keys).
 func Any(r *rand.Rand, size int) KeySet {
-	switch r.Intn(9) {
+	if size >= 200 && r.Intn(12) == 0 {
+		// depth 3..: 64+ bottom nodes; larger sizes reach larger short tables
+		d := 3
+		for (1<<uint(2*(d+1)))*3 <= size {
+			d++
+		}
+		return ShortTable(r, d, 2+r.Intn(40))
+	}
+	switch r.Intn(11) {
+	case 9:
+		return BigAscii(r, size)
+	case 10:
+		return LowHigh(r, size)
 	case 0:
 		return Tiny(r)
 	case 1, 2:
@@ -311,4 +323,95 @@ func ValueRuns(r *rand.Rand, n int) []int {
 		run++
 	}
 	return out
+}
+
+// ShortTable builds a regular trie whose lowest inner level consists of
+// `4^depth` nodes, each with a label bitmap drawn from a pool of nDistinct
+// random 2..4-label bitmaps, so that the builder's cost estimate selects a
+// larger short-node table (ShortSize grows with the number of nodes and the
+// number of distinct frequent bitmaps).
+func ShortTable(r *rand.Rand, depth, nDistinct int) KeySet {
+	pool := make([][]byte, nDistinct)
+	for i := range pool {
+		n := 2 + r.Intn(3)
+		p := r.Perm(16)[:n]
+		sort.Ints(p)
+		for _, x := range p {
+			pool[i] = append(pool[i], byte(x<<4))
+		}
+	}
+	var keys []string
+	var rec func(p []byte)
+	rec = func(p []byte) {
+		if len(p) == depth {
+			for _, c := range pool[r.Intn(nDistinct)] {
+				keys = append(keys, string(p)+string([]byte{c}))
+			}
+			return
+		}
+		for _, c := range []byte("abcd") {
+			rec(append(append([]byte{}, p...), c))
+		}
+	}
+	rec(nil)
+	sort.Strings(keys)
+	return KeySet{keys, "shorttable"}
+}
+
+// BigAscii: several 257-bit nodes (fan-out > 10 on the first two byte
+// positions) whose labels are all letters/digits, i.e. whose bitmaps differ only
+// in the higher 64-bit words.
+func BigAscii(r *rand.Rand, maxKeys int) KeySet {
+	letters := []byte("abcdefghijklmnopqrstuvwxyzABCDEFGHIJKLMNOPQRSTUVWXYZ")
+	m := map[string]struct{}{}
+	top := r.Perm(len(letters))[:11+r.Intn(6)]
+	for _, t := range top {
+		n2 := 11 + r.Intn(8)
+		if r.Intn(5) == 0 {
+			n2 = 2 + r.Intn(8)
+		}
+		for _, u := range r.Perm(len(letters))[:n2] {
+			k := string([]byte{letters[t], letters[u]})
+			if r.Intn(3) == 0 {
+				k += randStr(r, []byte("xyz"), 0, 2)
+			}
+			m[k] = struct{}{}
+			if len(m) >= maxKeys {
+				return KeySet{uniqSorted(m), "bigascii"}
+			}
+		}
+	}
+	return KeySet{uniqSorted(m), "bigascii"}
+}
+
+// LowHigh: a 257-bit root whose labels mix a few very low bytes (< 0x10) with
+// letters, above a regular structure over the same low bytes: the low part of
+// the big node's bitmap coincides with the most frequent 17-bit bitmap.
+func LowHigh(r *rand.Rand, maxKeys int) KeySet {
+	low := [][]byte{{0x01, 0x02}, {0x00, 0x01}, {0x02, 0x03, 0x05}, {0x01, 0x0e}}[r.Intn(4)]
+	letters := []byte("abcdefghijklmnopqrstuvwxyz")
+	var tops []byte
+	tops = append(tops, low...)
+	for _, i := range r.Perm(len(letters))[:10+r.Intn(6)] {
+		tops = append(tops, letters[i])
+	}
+	depth := 2 + r.Intn(3)
+	m := map[string]struct{}{}
+	var rec func(p []byte)
+	rec = func(p []byte) {
+		if len(m) >= maxKeys {
+			return
+		}
+		if len(p) == depth+1 {
+			m[string(p)] = struct{}{}
+			return
+		}
+		for _, c := range low {
+			rec(append(append([]byte{}, p...), c))
+		}
+	}
+	for _, t := range tops {
+		rec([]byte{t})
+	}
+	return KeySet{uniqSorted(m), "lowhigh"}
 }
